@@ -7,6 +7,7 @@ from .. import engine as en
 from .. import genengine as ge
 
 ID = 'C08'
+ANCHOR_FILES = ['generator/generator.py', 'generator/generator_ha_sm_hr.py', 'generator/generator_spa.py', 'generator/generator_shared.py', 'generator/instance_options_parser.py']
 LEVEL = 'exploration'
 NEEDS_DEPS = True
 EVAL_COUNTER = 'generator_runs'
